@@ -17,6 +17,10 @@ MANIFEST = {
 }
 
 
+# proof modules about the specification, checked by tlapm on every run (started by the driver next to leg A)
+TLAPS = [("ProcessProofs.tla", ["Process.tla"])]
+
+
 def leg_a(ctx):
     return pc.LEG_A_PROCESS + [{"spec": "MC_ProcessQ.tla", "cfg": "MC_ProcessQ_neg_no_guard.cfg", "expect": "violates:Inv_Admissible",
                                 "workers": 2, "what": "the machine without the admissibility guard reports a negative feed mass"}]
@@ -50,5 +54,4 @@ def run(ctx, pool):
         stats["outcomes"][k] = stats["outcomes"].get(k, 0) + v
     res = core.validate_traces(None, ctx, tw, pool, "Trace_Process.tla", "Trace_Process_C18.cfg")
     res = pc.finish(res, tw, stats, CLAUSES, "coarse discretisations: " + pc.RULE.replace("1e-4..4e-2", "0.1..10 (coarse) and 1e-4..4e-2"))
-    core.attach_tlaps(ctx, res, [("ProcessProofs.tla", ["Process.tla"])])
     return res
